@@ -11,7 +11,8 @@ PID = "C06"
 LEVEL = "proof"
 CRATES = ["rlib_mint"]
 RELEASE = True
-DEPENDS = ["C08"]   # the property's read/write clauses run through these packs' code (rules reported as <PID>.<rule>)
+NO_HIDDEN_STATE = ['rlib_mint']   # driver rule STATE: these crates are plain data structures / functions
+DEPENDS = ["C08", "C09"]   # the property's read/write clauses run through these packs' code (rules reported as <PID>.<rule>)
 ARMED = True
 ENGINES = ["E3", "E4b"]
 TECHNIQUE = "abstract interpretation of the MIR of Modular's constructors and operators in a parametric-interval x congruence-mod-M domain (bounds are polynomials in M decided exactly over M in [2, 2^31-1]); obligations: representation invariant at every construction site, every compiler-inserted overflow/div-by-zero assertion, every narrowing cast, congruence with the integer specification; resolved-callee family rules for the derived operators and IO"
